@@ -5,6 +5,7 @@ fn main() {
     let src = std::fs::read(&a[1]).unwrap();
     let data = if a[2].starts_with("-hex:") { verif_harness::util::unhex(&a[2][5..]) } else { std::fs::read(&a[2]).unwrap() };
     let mut c = yara_x::Compiler::new();
+    if std::env::var_os("PROBE_RELAXED").is_some() { c.relaxed_re_syntax(true); }
     match c.add_source(src.as_slice()) { Ok(_) => println!("add_source: Ok"), Err(e) => println!("add_source: Err {}", e) }
     println!("errors={} warnings={} ignored={}", c.errors().len(), c.warnings().len(), c.ignored_rules().count());
     let rules = c.build();
